@@ -151,7 +151,7 @@ def run_case(case):
         redundancy = len(ms) - n_states
         rt = toks + ["redundancy=%d" % redundancy if redundancy < 3 else "redundancy>=3"]
         try:
-            flagged = chi2_analysis(net, init=case["init"])
+            flagged = chi2_analysis(net, init=case["init"], tolerance=1e-8, maximum_iterations=50)
             if flagged:
                 t = list(rt)
                 if redundancy == 0:
@@ -159,7 +159,7 @@ def run_case(case):
                 vs.append(core.violation("no_bad_data", {"chi2_analysis": bool(flagged), "redundancy": redundancy}, tokens=t, klass="chi2"))
             before = net.measurement.copy()
             try:
-                remove_bad_data(net, init=case["init"])
+                remove_bad_data(net, init=case["init"], tolerance=1e-8, maximum_iterations=50)
                 removed = [i for i in before.index if i not in net.measurement.index]
                 exc = None
             except Exception as e:
